@@ -1853,6 +1853,7 @@ func lemmaForwardSession(raw *rawEnvelope) (e *Session, e3 *Session, accepted bo
 //@   requires srvInv(c)
 //@   modifies c.state, c.startRcv.fired, c.stopRcv.fired, c.transport.nSent, c.transport.lastSent, c.transport.nSentSes, c.transport.lastSes, c.transport.connected, c.transport.stage, c.transport.offerEnc, c.transport.offerComp, c.transport.offerSchemes, c.transport.confEnc, c.transport.confComp
 //@   ensures result == nil ==> c.state == SessionStateFinished && c.transport.stage == 5 && !c.transport.connected
+//@   ensures c.startRcv.fired == old(c.startRcv.fired)
 //@   ensures srvInv(c) && step(c.state) >= step(old(c.state))
 //@   ensures c.transport.connected ==> old(c.transport.connected)
 
@@ -1977,12 +1978,14 @@ func lemmaForwardSession(raw *rawEnvelope) (e *Session, e3 *Session, accepted bo
 //@   modifies c.state, c.remoteNode, c.startRcv.fired, c.stopRcv.fired, c.transport.connected, c.transport.nSent, c.transport.lastSent, c.transport.nSentSes, c.transport.lastSes, c.transport.stage, c.transport.offerEnc, c.transport.offerComp, c.transport.offerSchemes, c.transport.confEnc, c.transport.confComp
 //@   ensures [C03] @announce result == nil ==> c.state == SessionStateEstablished && c.remoteNode == node && c.transport.stage == 4 && c.transport.lastSes.To == node && c.transport.lastSes.ID == c.sessionID && c.transport.lastSes.From == c.localNode
 //@   ensures c.state == SessionStateEstablished || c.state == old(c.state)
+//@   ensures c.state == SessionStateEstablished ==> c.startRcv.fired
+//@   ensures c.state == old(c.state) && old(c.state) != SessionStateEstablished ==> c.startRcv.fired == old(c.startRcv.fired)
 //@   ensures srvInv(c) && step(c.state) >= step(old(c.state))
 //@   ensures c.transport.connected ==> old(c.transport.connected)
 
 //@ func (*ServerChannel).authenticateSession
 //@   props C03 C07 C09 C10 C14
-//@   requires srvInv(c) && authenticate != nil && register != nil
+//@   requires srvInv(c) && authenticate != nil && register != nil && (c.state == SessionStateNew || c.state == SessionStateNegotiating) && !c.startRcv.fired
 //@   requires [C07] @clientword (c.state == SessionStateNew || c.state == SessionStateNegotiating) ==> authWordOK(c)
 //@   requires [C09] @switched switched(c)
 //@   requires [C10] @policy policy(c)
@@ -1995,14 +1998,18 @@ func lemmaForwardSession(raw *rawEnvelope) (e *Session, e3 *Session, accepted bo
 //@   loop 1 invariant c.state == SessionStateFailed ==> !c.transport.connected
 //@   loop 1 invariant c.transport.connected ==> old(c.transport.connected)
 //@   loop 1 invariant c.state == SessionStateEstablished ==> c.transport.stage == 4
+//@   loop 1 invariant c.state == SessionStateEstablished ==> c.startRcv.fired
+//@   loop 1 invariant c.state != SessionStateEstablished ==> c.startRcv.fired == old(c.startRcv.fired)
 //@   oncall [C10] role:authenticate : policy(c)
 //@   ensures [C07] @failclosed result == nil && c.state != SessionStateEstablished ==> c.state == SessionStateFailed && !c.transport.connected
 //@   ensures srvInv(c) && step(c.state) >= step(old(c.state))
+//@   ensures c.state == SessionStateEstablished ==> c.startRcv.fired
+//@   ensures c.state != SessionStateEstablished ==> c.startRcv.fired == old(c.startRcv.fired)
 //@   ensures c.transport.connected ==> old(c.transport.connected)
 
 //@ func (*ServerChannel).EstablishSession
 //@   props C03 C07 C09 C10 C14
-//@   requires srvInv(c) && c.state == SessionStateNew && effStage(c.transport) == 0
+//@   requires srvInv(c) && c.state == SessionStateNew && effStage(c.transport) == 0 && !c.startRcv.fired
 //@   entry-ghost c.cfgEnc = elems(encryptOpts)
 //@   entry-ghost c.cfgComp = elems(compOpts)
 //@   panics only-if ctx == nil || compOpts == nil || encryptOpts == nil || authenticate == nil || register == nil
@@ -2012,3 +2019,49 @@ func lemmaForwardSession(raw *rawEnvelope) (e *Session, e3 *Session, accepted bo
 //@   ensures [C14] @closedorestablished result == nil && c.state != SessionStateEstablished ==> !c.transport.connected
 //@   ensures [C07] @failclosed result == nil && c.state != SessionStateEstablished && old(transportOK(c.channel)) ==> c.state == SessionStateFailed || !c.transport.connected
 //@   ensures srvInv(c) && step(c.state) >= step(old(c.state))
+//@   ensures c.state == SessionStateEstablished ==> c.startRcv.fired
+//@   ensures c.state != SessionStateEstablished ==> c.startRcv.fired == old(c.startRcv.fired)
+
+// ---- C14: every connection that fails to establish is released ---------------
+
+//@ func (*channel).Established
+//@   props C06 C14
+//@   requires c != nil && c.transport != nil
+//@   ensures result == (c.state == SessionStateEstablished && c.transport.connected)
+//@   modifies nothing
+
+//@ func (*channel).Close
+//@   props C14
+//@   requires c != nil && c.transport != nil
+//@   modifies c.stopRcv.fired, c.transport.connected
+//@   ensures !c.transport.connected
+
+// The dispatch loop runs handlers and overlaps with the receiver goroutine:
+// everything those may change is declared modified (sequential soundness).
+//@ func (*EnvelopeMux).ListenServer
+//@   props C14 C20
+//@   requires m != nil && srvInv(c)
+//@   modifies c.state, c.startRcv.fired, c.stopRcv.fired, c.transport.nRecv, c.transport.lastRecv, recvClock, c.transport.connected, c.transport.nSent, c.transport.lastSent, c.transport.nSentSes, c.transport.lastSes, c.transport.stage, c.transport.offerEnc, c.transport.offerComp, c.transport.offerSchemes, c.transport.confEnc, c.transport.confComp
+//@   trusted summarises the established phase (dispatch loop + concurrent receiver); its sequential part is verified as (*EnvelopeMux).listen
+//@   ensures srvInv(c) && step(c.state) >= step(old(c.state)) && c.startRcv.fired == old(c.startRcv.fired)
+
+//@ callback role established(sessionID, ch) () : field ServerConfig.Established, local established of (*Server).handleChannel
+//@   requires [C14] @onlyestablished ch != nil && ch.channel != nil && ch.state == SessionStateEstablished && sessionID == ch.sessionID
+//@   modifies estN, estID, estChan
+//@   ensures estN == old(estN) + 1 && estID == sessionID && estChan == ch
+
+//@ callback role finished(sessionID) () : field ServerConfig.Finished, local finished of (*Server).handleChannel$1
+//@   modifies finN, finID
+//@   ensures finN == old(finN) + 1 && finID == sessionID
+
+//@ func (*Server).handleChannel
+//@   props C14
+//@   requires srv != nil && srv.config != nil && srv.mux != nil && ctx != nil
+//@   requires srvInv(c) && c.state == SessionStateNew && effStage(c.transport) == 0 && !c.startRcv.fired
+//@   requires srv.config.CompOpts != nil && srv.config.EncryptOpts != nil && srv.config.Authenticate != nil && srv.config.Register != nil
+//@   modifies c.cfgEnc, c.cfgComp, c.state, c.remoteNode, c.startRcv.fired, c.stopRcv.fired, c.transport.nRecv, c.transport.lastRecv, recvClock, c.transport.connected, c.transport.nSent, c.transport.lastSent, c.transport.nSentSes, c.transport.lastSes, c.transport.stage, c.transport.offerEnc, c.transport.offerComp, c.transport.offerSchemes, c.transport.confEnc, c.transport.confComp, c.transport.enc, c.transport.comp, authN, authClock, authIdentity, authArg, authRes, authErr, regN, regClock, regSeqAuth, regCand, regChan, regRes, regErr, estN, estID, estChan, finN, finID
+//@   oncall [C14] role:finished : c.startRcv.fired && a_sessionID == c.sessionID
+//@   ensures [C14] @released !c.startRcv.fired ==> !c.transport.connected && estN == old(estN) && finN == old(finN)
+//@   ensures [C14] @nocallbacks estN == old(estN) && srv.config.Established != nil ==> finN == old(finN) && !c.transport.connected
+//@   ensures [C14] @atmostonce estN == old(estN) || (estN == old(estN) + 1 && estID == c.sessionID)
+//@   ensures [C14] @finonce finN == old(finN) || finN == old(finN) + 1
